@@ -37,6 +37,7 @@ import (
 	"net"
 	"os"
 	"strings"
+	"syscall"
 )
 
 const (
@@ -163,7 +164,13 @@ func ElideError(err error) string {
 	if unsafeLogging {
 		return err.Error()
 	}
+	return elideError(err)
+}
 
+// elideError is the scrubbing half of ElideError.  It calls itself on the
+// error nested inside a net.OpError, as that is frequently a net.DNSError or
+// a net.AddrError carrying the host name, the address or the DNS server.
+func elideError(err error) string {
 	// If err is not a net.Error, just return the string representation,
 	// presumably transport authors know what they are doing.
 	var netErr net.Error
@@ -175,18 +182,59 @@ func ElideError(err error) string {
 	case *net.AddrError:
 		return t.Err + " " + elidedAddr
 	case *net.DNSError:
-		return "lookup " + elidedAddr + " on " + elidedAddr + ": " + t.Err
+		return "lookup " + elidedAddr + " on " + elidedAddr + ": " + elideDNSCause(t)
 	case *net.InvalidAddrError:
 		return "invalid address error"
 	case *net.UnknownNetworkError:
 		return "unknown network " + elidedAddr
 	case *net.OpError:
-		return t.Op + ": " + t.Err.Error()
+		if t.Err == nil {
+			return t.Op
+		}
+		return t.Op + ": " + elideError(t.Err)
+	case syscall.Errno:
+		// "connection refused" and the like; the text of an errno never
+		// includes an address.
+		return t.Error()
 	default:
+		// Frequent causes that are known to never include an address.
+		if errors.Is(netErr, net.ErrClosed) {
+			return net.ErrClosed.Error()
+		}
+		if netErr.Timeout() {
+			return "i/o timeout"
+		}
+
 		// For unknown error types, do the conservative thing and only log the
 		// type of the error instead of assuming that the string representation
 		// does not contain sensitive information.
 		return fmt.Sprintf("network error: <%T>", t)
+	}
+}
+
+// elideDNSCause returns the description of why a lookup failed.  Only the
+// fixed strings used by the resolver are passed through.  Everything else,
+// most notably the text of the socket error from the exchange with the DNS
+// server ("read udp 192.0.2.1:4242->192.0.2.53:53: i/o timeout"), is
+// replaced by a description derived from the flags of the error.
+func elideDNSCause(e *net.DNSError) string {
+	switch e.Err {
+	case "no such host", "server misbehaving", "i/o timeout", "lame referral",
+		"cannot unmarshal DNS message", "cannot marshal DNS message",
+		"invalid DNS response", "no answer from DNS server",
+		"unrecognized address", "invalid address", "unknown port",
+		"unknown network", "operation was canceled":
+		return e.Err
+	}
+	switch {
+	case e.IsNotFound:
+		return "no such host"
+	case e.IsTimeout:
+		return "i/o timeout"
+	case e.IsTemporary:
+		return "temporary failure"
+	default:
+		return "failure"
 	}
 }
 
